@@ -188,6 +188,7 @@ def run(ctx):
     ctx.oblige('correspondence:Mp4Atom.load/encode-vs-BoxModel.parse/enc_list', ok)
     field_and_json(ctx, [b for b in blobs if not b[0].startswith('gen')])
     edits(ctx)
+    synthetic(ctx)
     size_forms(ctx)
 
 
@@ -221,6 +222,55 @@ def field_and_json(ctx, blobs):
             ctx.violation('%s: JSON round trip raised %s: %s' % (name, type(e).__name__, str(e)[:80]), inp)
 
 
+def field_value(v):
+    if hasattr(v, 'data') and isinstance(getattr(v, 'data'), (bytes, bytearray)):
+        return bytes(v.data).hex()
+    if isinstance(v, (bytes, bytearray)):
+        return bytes(v).hex()
+    if isinstance(v, (list, tuple)):
+        return [field_value(x) for x in v]
+    return v
+
+
+def synthetic(ctx):
+    """typed boxes written from the specification (both versions, all flag combinations, ids with leading
+    zeros): decoded field values = the values written, byte-exact re-encoding in both modes, JSON and back"""
+    from dashlive.mpeg import mp4
+    from .. import specboxes
+    items = specboxes.gen(ctx.rng, 4 if ctx.quick() else 120)
+    for name, data, (path, exp) in items:
+        ctx.count('impl:synthetic-typed')
+        inp = {'name': name, 'bytes': list(data)}
+        for lazy in (False, True):
+            mode = 'lazy' if lazy else 'eager'
+            try:
+                wrap = load(data, lazy, iv_size=8)
+                node = wrap
+                for part in path.split('.'):
+                    node = getattr(node, part)
+                for k, want in exp.items():
+                    got = field_value(getattr(node, k.lstrip('#')))
+                    if got != want and not (isinstance(want, int) and isinstance(got, float) and got == want):
+                        ctx.violation('%s (%s): field %s is %r, the bytes say %r' % (name, mode, k.lstrip('#'), got, want), inp)
+                out = reencode(wrap)
+            except Exception as e:  # noqa
+                ctx.violation('%s (%s): parse/encode raised %s: %s' % (name, mode, type(e).__name__, str(e)[:80]), inp)
+                continue
+            if out != data:
+                ctx.violation('%s (%s): parse then encode does not reproduce the input (first difference at byte %d)' % (
+                    name, mode, next((i for i, (a, b) in enumerate(zip(out, data)) if a != b), min(len(out), len(data)))), inp)
+        try:
+            wrap = load(data, False, iv_size=8)
+            outs = b''.join(mp4.Mp4Atom.fromJSON(ch.toJSON()).encode() for ch in wrap.children)
+            if outs != data:
+                ctx.violation('%s: JSON form and back encodes to different bytes (first difference at %d)' % (
+                    name, next((i for i, (x, y) in enumerate(zip(outs, data)) if x != y), min(len(outs), len(data)))), inp)
+            else:
+                ctx.nontriv(('syn', name, hash(data)))
+        except Exception as e:  # noqa
+            ctx.violation('%s: JSON round trip raised %s: %s' % (name, type(e).__name__, str(e)[:80]), inp)
+
+
 def check_nesting(data):
     """sizes nest: the walker parses everything and children exactly fill parents"""
     try:
@@ -240,13 +290,13 @@ def edits(ctx):
     seg = boxes[moofs[0]].raw + boxes[moofs[0] + 1].raw
     n = 0
     for lazy in (False, True):
-        for trial in range(6 if ctx.quick() else 40):
+        for trial in range(12 if ctx.quick() else 60):
             ctx.count('impl:edits')
             script = []
             try:
                 w = load(seg, lazy)
                 for _ in range(rng.randint(1, 4)):
-                    op = rng.choice(['seq', 'tfdt', 'tfdt64', 'del-tfdt', 'ins-free', 'append-free'])
+                    op = rng.choice(['seq', 'tfdt', 'tfdt64', 'del-tfdt', 'ins-free', 'append-free', 'move', 'ins-owned'])
                     script.append(op)
                     traf = w.moof.traf
                     if op == 'seq':
@@ -261,6 +311,24 @@ def edits(ctx):
                         traf.insert_child(rng.randint(0, len(traf.children)), mp4.UnknownBox(atom_type='free', data=b'xy', position=0, size=10, header_size=8))
                     elif op == 'append-free':
                         traf.append_child(mp4.UnknownBox(atom_type='free', data=b'', position=0, size=8, header_size=8))
+                    elif op == 'move' and len(traf.children) > 1:
+                        # re-order a box inside its parent: remove it, insert it again elsewhere
+                        i = rng.randrange(len(traf.children))
+                        ch = traf.children[i]
+                        traf.remove_child(i)
+                        traf.insert_child(rng.randint(0, len(traf.children)), ch)
+                    elif op == 'ins-owned':
+                        # a box created with parent=traf that already knows its size, then inserted
+                        fb = mp4.UnknownBox(atom_type='free', data=b'abcd', position=0, size=12, header_size=8, parent=traf)
+                        traf.insert_child(rng.randint(0, len(traf.children)), fb)
+                    if op in ('del-tfdt', 'ins-free', 'append-free', 'move', 'ins-owned'):
+                        # in memory, before anything is re-encoded: children exactly fill their parent
+                        for box in (traf, w.moof):
+                            tot = box.header_size + sum(ch.size for ch in box.children)
+                            if tot != box.size:
+                                ctx.violation("after edits %r (%s) '%s'.size is %d, header + children occupy %d (before re-encoding)"
+                                              % (script, 'lazy' if lazy else 'eager', box.atom_type, box.size, tot),
+                                              {'script': script, 'lazy': lazy})
                 out = reencode(w)
             except Exception as e:  # noqa
                 ctx.violation('edit script %r (%s) raised %s: %s' % (script, 'lazy' if lazy else 'eager', type(e).__name__, str(e)[:80]),
